@@ -42,24 +42,18 @@ def addLabelKeys (ids : List Id) (rid : Id) : List String → List (String × Id
     if l ∈ ids ∨ acc.any (·.1 == l) then .error .revisionError
     else addLabelKeys ids rid ls (acc ++ [(l, rid)])
 
-/-- `add_revision(revision)` for a revision whose id is not yet in the map
-    (`_replace=False`; a repeated id only warns in Python and is outside this model: `assertion`) -/
-def addRevision (m : LMap) (r : Rev) : Except Err LMap := do
-  checkRev r                                   -- `Revision.__init__` (ran when the Script was built)
-  if hasKey m r.id then throw .assertion
+/-- steps 2 and 4-8 once the guards have passed and the label keys are known -/
+def addCore (m : LMap) (r : Rev) (labelKeys' : List (String × Id)) : LMap :=
   let ids' := m.ids ++ [r.id]
-  -- 2. `_add_branches`
+  -- 2. `_add_branches` (evaluated on the old children sets)
   let tgts := labelTargets m r
-  -- 3. `_map_branch_labels`
-  let labelKeys' ← addLabelKeys ids' r.id r.labels m.labelKeys
-  -- 4. `_add_depends_on` (`map_[dep]`: KeyError for a name that is not a key)
-  if (r.down ++ r.deps).any (fun d => (lookupKey ids' labelKeys' d).isNone) then throw .keyError
+  -- 4. `_add_depends_on`
   let rd := resolveDeps ids' labelKeys' r.deps
   let new0 : LRev := { id := r.id, down := r.down, rdeps := rd, ndeps := [], origLabels := r.labels,
                        labels := dedupe r.labels }
-  -- 6. `map_[downrev].add_nextrev(revision)`: KeyError for a missing reference (checked above)
   let oldRevs := m.revs.map (fun x =>
     if x.id ∈ tgts then { x with labels := dedupe (x.labels ++ r.labels) } else x)
+  -- 6. `add_nextrev`: children sets are computed from the list of revisions
   let m1 : LMap := { m with revs := oldRevs ++ [new0], labelKeys := labelKeys' }
   -- 7. `_normalize_depends_on`
   let new1 : LRev := { new0 with ndeps := normalizeOne m1 new0 }
@@ -67,11 +61,23 @@ def addRevision (m : LMap) (r : Rev) : Except Err LMap := do
   -- 5. bases, 8. heads
   let isRealHead := (m2.allNextrev r.id).isEmpty
   let isHead := (m2.nextrev r.id).isEmpty
-  pure { m2 with
+  { m2 with
     bases := if r.down.isEmpty then m.bases ++ [r.id] else m.bases
     realBases := if r.down.isEmpty ∧ r.deps.isEmpty then m.realBases ++ [r.id] else m.realBases
     realHeads := if isRealHead then (m.realHeads.filter (fun h => !(h ∈ new1.allDown || h == r.id))) ++ [r.id] else m.realHeads
     heads := if isHead then (m.heads.filter (fun h => !(h ∈ r.down || h == r.id))) ++ [r.id] else m.heads }
+
+/-- `add_revision(revision)` for a revision whose id is not yet in the map
+    (`_replace=False`; a repeated id only warns in Python and is outside this model: `assertion`) -/
+def addRevision (m : LMap) (r : Rev) : Except Err LMap := do
+  checkRev r                                   -- `Revision.__init__` (ran when the Script was built)
+  if hasKey m r.id then throw .assertion
+  let ids' := m.ids ++ [r.id]
+  -- 3. `_map_branch_labels`
+  let labelKeys' ← addLabelKeys ids' r.id r.labels m.labelKeys
+  -- 4./6. `map_[dep]`, `map_[downrev]`: KeyError for a name that is not a key
+  if (r.down ++ r.deps).any (fun d => (lookupKey ids' labelKeys' d).isNone) then throw .keyError
+  pure (addCore m r labelKeys')
 
 /-! ## the observable view of a map -/
 
